@@ -60,5 +60,14 @@ LastAcceptedWins == \A k \in Keys : fs[k] = LastAccepted(hist, k)
 NoBadFiles == \A d \in Dirs : fs[<<d, BadName>>] = 0
 \* an import returns the object of the last accepted export, however the path is spelled
 ImportSeesLastExport == (hist # <<>> /\ hist[Len(hist)].op = "import") => hist[Len(hist)].obj = LastAccepted(hist, hist[Len(hist)].key)
+\* complete-graph mode (VIEW NoHist, no depth bound): the file system and the working directory are a finite state; the
+\* history-defined invariants above are replaced by their inductive step form, checked on EVERY transition
+NoHist == <<fs, cwd>>
+StepSound == [][ hist' # hist => LET e == hist'[Len(hist')] IN
+                   CASE e.op = "export" /\ e.err = "" -> fs' = [fs EXCEPT ![e.key] = e.obj] /\ cwd' = cwd
+                     [] e.op = "import" -> fs' = fs /\ cwd' = cwd /\ e.obj = fs[e.key]
+                     [] e.op = "chdir" -> fs' = fs
+                     [] OTHER -> fs' = fs /\ cwd' = cwd ]_vars
+EmitTrans == CSVWrite("%1$s", <<ToJson(hist')>>, IOEnv.OUT_FILE)
 Emit == (Len(hist) = D) => CSVWrite("%1$s", <<ToJson(hist)>>, IOEnv.OUT_FILE)
 =======================================================================
